@@ -117,6 +117,37 @@ def c06_emit(gendir, items, repo="/repo"):
             src.append("func %s() { interp.ZZNoCrashGroup(format.%s, %d) }" % (fn, name, n))
         open(os.path.join(d, "gen_nocrash.go"), "w").write("\n".join(src) + "\n")
 
+
+def gen_C06(repo, gendir, gosym):
+    """One generic no-crash harness per registered format, enumerated from the interp.RegisterFormat calls of
+    the current tree; input sizes from harness/c06_bounds.json (calibrated: the sizes whose path space the
+    engine exhausts), formats not listed there get the default size."""
+    import json
+    b = json.load(open(os.path.join(os.path.dirname(os.path.abspath(__file__)), "c06_bounds.json")))
+    items, added, skipped, defaulted = [], [], {}, []
+    spec = PROPS["C06"]
+    spec["harnesses"] = [h for h in spec["harnesses"] if not h.get("generated")]
+    for rel, name in c06_formats(repo):
+        if name in b["skip"]:
+            skipped[name] = b["skip"][name]
+            continue
+        fb = b["formats"].get(name)
+        if fb is None:
+            fb = {"quick": b["default"], "thorough": b["default"]}
+            defaulted.append(name)
+        q, t = fb["quick"], fb["thorough"]
+        items.append((rel, "", name, q, "VerifNoCrashGen_" + name))
+        h = {"entry": "%s.VerifNoCrashGen_%s" % (rel, name), "generated": True, "clause": "registered format %s (real Format incl. default in-arg, dependency groups stubbed) never panics" % name, "bounds": {"input_bytes": "0..%d" % q}}
+        if t > q:
+            h["group"] = "ncg-" + name
+            items.append((rel, "", name, t, "VerifNoCrashGenLong_" + name))
+            spec["harnesses"].append({"entry": "%s.VerifNoCrashGenLong_%s" % (rel, name), "generated": True, "group": "ncg-" + name, "tier": "thorough",
+                                      "clause": "registered format %s never panics" % name, "bounds": {"input_bytes": "0..%d" % t}})
+        spec["harnesses"].append(h)
+        added.append(name)
+    c06_emit(gendir, items, repo)
+    return {"formats_in_tree": len(added) + len(skipped), "formats_checked": len(added), "formats_with_default_bound": defaulted, "formats_skipped": skipped}
+
 PROPS = {}
 
 PROPS["C01"] = {
@@ -381,11 +412,13 @@ PROPS["C10"] = {
         {"entry": "internal/asciiwriter.VerifASCIIWriterWide", "group": "asciiw", "tier": "thorough", "clause": "ASCII column layout, widths 1..16", "bounds": {"width": "1..16"}},
         {"entry": "internal/asciiwriter.VerifSafeASCII", "clause": "SafeASCII(c): printable itself, else a dot; all 256 bytes", "bounds": {}},
         {"entry": "internal/mathx.VerifTwosComplementZigZag", "clause": "TwosComplement for widths 1..64 and ZigZag", "bounds": {}},
+        {"entry": "internal/colorjson.VerifEncodeValue", "clause": "JSON output equals the value: scalars (9 ints, 20 floats incl. the exponent formatting boundaries 1e-6, 1e-9, 1e-10, 1e-100, 1e21, 1e22, 3 big integers printed exactly), arrays and objects: fq's encoder gives the text of the reference encoder (gojq.Marshal)", "bounds": {"elements": "<= 2"}},
+        {"entry": "internal/columnwriter.VerifColumnAlign", "clause": "row alignment of the dump's column writer: a cell of any width (15 widths up to 200, incl. the hex column widths of line_bytes 16, 27, 28, 32, 54, 64) is padded to exactly its width, so the next column starts at the same offset on every row", "bounds": {"width": "15 values 0..200", "cell text": "0..3 characters, 2 rows"}},
         {"entry": "pkg/interp.VerifHexdumpLayout", "group": "dump", "clause": "the real hexdump()/dump()/dumpEx()/columnwriter path on a binary over symbolic bytes: every byte overlapping the value's bit range is shown exactly once, in the row whose address plus the cell's column is its offset, as its hex digits and ASCII rendering; all other cells blank; row addresses consecutive multiples of the line width", "bounds": {"buffer_bytes": 3, "line_bytes": "1..4", "start/len": "every byte position, bit offsets 0 and 5 / length remainders 0 and 4", "addrbase": 16, "display_bytes": "0 (no truncation)"}},
         {"entry": "pkg/interp.VerifHexdumpLayoutWide", "group": "dump", "tier": "thorough", "clause": "same, 4 bytes, line widths 1..6", "bounds": {"buffer_bytes": 4, "line_bytes": "1..6"}},
     ],
     "assumptions": ["fmt.Fprintf/Fprint in dumpEx are the engine's implementation of the verbs used (%s %d %v on concrete arguments; fq's ansi.colorFormatter is rendered as the concatenation of its parts); the bytes themselves reach the columns through the real hexpairwriter/asciiwriter/columnwriter code", "the layout harnesses use a one/two character identity rendering per byte (the writers take the rendering as a parameter; production passes Pair / SafeASCII, checked on their own)"],
-    "outside": ["dump of decode trees (tree column text, nested roots, array truncation), display_bytes truncation, colour escapes, address bases other than 16", "number formatting (strconv) and DigitsInBase (float log)", "colorjson"],
+    "outside": ["dump of decode trees (tree column text, nested roots, array truncation), display_bytes truncation, colour escapes, address bases other than 16", "number formatting (strconv) of symbolic numbers and DigitsInBase (float log)", "colorjson indentation/colour (C07)"],
 }
 
 PROPS["C16"] = {
@@ -409,7 +442,8 @@ PROPS["C16"] = {
 
 PROPS["C06"] = {
     "level": "model_checking",
-    "explanation": "for an explicit list of decoders: decode.Decode over N fully symbolic bytes, forced and unforced; every Go runtime check on every path is a solver query and a panic escaping Decode (through the real recoverfn.Run) is a violation",
+    "gen": gen_C06,
+    "explanation": "decode.Decode over N fully symbolic bytes, forced and unforced; every Go runtime check on every path is a solver query and a panic escaping Decode (through the real recoverfn.Run) is a violation. (a) every format registered in the current tree (enumerated from the interp.RegisterFormat calls on every run), entered through its real *decode.Format looked up in interp.DefaultRegistry, dependency groups replaced by a stub format that fails / consumes nothing / consumes everything, input size per format = the calibrated size whose path space is exhausted (harness/c06_bounds.json; 0..32 bytes); (b) hand written deeper harnesses for msgpack, cbor, bson, bencode, asn1_ber, luajit",
     "wall_quick": 1500, "wall_thorough": 10800, "split_max": 300,
     "harnesses": [
         {"entry": "format/msgpack.VerifNoCrash", "group": "nc-msgpack", "clause": "msgpack never panics", "bounds": {"input_bytes": "0..4"}},
@@ -425,8 +459,10 @@ PROPS["C06"] = {
         {"entry": "format/luajit.VerifNoCrashLong", "group": "nc-luajit", "tier": "thorough", "clause": "luajit (header) never panics", "bounds": {"input_bytes": "0..10"}},
         {"entry": "format/luajit.VerifNoCrashBCIns", "clause": "one luajit bytecode instruction entered directly, any opcode byte", "bounds": {"input_bytes": "0..4"}},
     ],
-    "assumptions": ["nested format groups are empty (the harness bypasses the registry): only the decoder's own code is covered", "text decoding stubbed as identity"],
-    "outside": ["all other registered formats (about 125 of 132), the probe, inputs longer than the stated N: outside the claim"],
+    "assumptions": ["hand written harnesses: nested format groups are empty (the harness bypasses the registry): only the decoder's own code is covered",
+                    "generated harnesses: nested formats are a stub (fails / consumes nothing / consumes all; out value nil): the parent's handling of a nested decode's success and failure is covered, the nested decoders themselves only as top-level formats; format options are the registered defaults",
+                    "text decoding stubbed as identity"],
+    "outside": ["inputs longer than the stated N per format (most decoders need more bytes than that to get past their headers: the claim is about the code reachable within N bytes)", "the probe over all formats", "formats listed under formats_skipped in the evidence (third-party text parsers, decoders that need a typed out value from a real nested format)", "non-default format options"],
 }
 
 
